@@ -18,6 +18,7 @@ type Profile struct {
 	QKinds  []int
 	NQ      [2]int
 	WrapPct int
+	ReenterPause bool // ... or Pause
 	ReenterTune bool // re-entrant worker functions may also call TunePool
 	ReenterPct int // percent of the single submissions whose worker function calls back into the library (introspection, or a follow-up Add)
 	BoundPct   int // percent of the wrapped in-memory queues that are bounded (capacity 1-3, Enqueue waits while full)
@@ -270,7 +271,9 @@ func generate(r *simrt.Rand, pf *Profile) (Cfg, *Program) {
 			if p.Subs[i].Batch >= 0 || p.Subs[i].Pre || !r.Chance(pf.ReenterPct) {
 				continue
 			}
-			if pf.ReenterTune && r.Chance(50) {
+			if pf.ReenterPause && r.Chance(50) {
+				p.Subs[i].Reenter = 4
+			} else if pf.ReenterTune && r.Chance(50) {
 				p.Subs[i].Reenter = 3
 			} else if bounded || r.Chance(50) {
 				p.Subs[i].Reenter = 1
@@ -728,6 +731,7 @@ func init() {
 	register(&Property{ID: "C09", Rule: "episodes in which PauseAndWait/Stop/WaitAndStop/Pause returned nil while accepted jobs had not started; distinct = schedule/program hash",
 		Gen: func(r *simrt.Rand, tier string) (Cfg, *Program) {
 			pf := baseProfile()
+			pf.ReenterPct, pf.ReenterPause = 5, true // worker functions that look at, or pause, their own worker
 			pf.WrapDeqPct = 15 // user-supplied queues that refuse a dequeue now and then
 			pf.Conc = []int{1, 1, 2, 3, 4}
 			pf.Producers, pf.Adds = [2]int{1, 3}, [2]int{2, 8}
@@ -782,6 +786,12 @@ func init() {
 			pf.Cancellers, pf.CancelOps = [2]int{1, 3}, [2]int{1, 5}
 			pf.CloseInFnPct = 5
 			pf.Cancel = []wop{{opCloseJob, 8}, {opPurge, 2}, {opCloseQueue, 1}}
+			if r.Chance(20) {
+				// cancelling and purging on a paused or stopped worker
+				pf.Ctrl = []wop{{opPause, 3}, {opStop, 2}, {opResume, 3}, {opRestart, 2}, {opSettle, 2}}
+				pf.CtrlOps = [2]int{1, 4}
+				pf.CtrlGapPct = 40
+			}
 			pf.Waiters, pf.WaitOps = [2]int{0, 2}, [2]int{1, 3}
 			pf.Wait = []wop{{opWait, 4}, {opResult, 4}}
 			pf.BatchWaitPct, pf.ReaderPct = 40, 40
@@ -997,6 +1007,13 @@ func init() {
 			pf.Samplers, pf.SampleOps = [2]int{0, 1}, [2]int{1, 4}
 			pf.Sample = []wop{{opBatchPendingAny, 5}, {opYield, 2}}
 			pf.CloseInFnPct = 10 // a refused Close on an executing batch item must change nothing
+			if r.Chance(15) {
+				// batches on a worker that is paused, stopped and restarted: purged and cancelled
+				// items are counted out whatever the worker's state
+				pf.Ctrl = []wop{{opPause, 3}, {opStop, 2}, {opResume, 3}, {opRestart, 2}, {opSettle, 2}}
+				pf.CtrlOps = [2]int{1, 4}
+				pf.CtrlGapPct = 40
+			}
 			big := bigBatch(pf, r, tier)
 			c, p := generate(r, pf)
 			if !big && p.NBatches > 0 && r.Chance(15) {
